@@ -1,9 +1,15 @@
 (* Props/C20.v — C20: a failed disk operation is reported and leaves the store consistent.
-   The fault-aware engine model (C20_fault_consistent in DESIGN.md section 8) is not built yet; the
-   property is decided by exhaustive one-fault sweeps on the real store (`bin/check C20`, level
-   fault_enumeration).  Proved here: the discipline of file ids that the repair of the writer relies
-   on, in the fault-free model. *)
-From BC Require Import Store.Engine Store.Log Store.Cons Store.Inv Store.Refine Store.Merge Store.Theorems.
+   A fault-aware engine model (what the RUNNING process does after an error: the stale writer, the
+   index not updated after a failed fsync or rollover) is not built; that part of the property is
+   decided by exhaustive one-fault sweeps on the real store (`bin/check C20`, level fault_enumeration).
+   Proved here: the discipline of file ids that the repair of the writer relies on (fault-free
+   model), and the restart half of the property for set / delete / reopen: a failed call has no
+   effect and the error paths of these operations issue no further call, so what a failed operation
+   leaves on disk is a crash image of its trace (a call boundary; or, when the failing call is the
+   second write of a record larger than the buffer, a record cut inside) — and every such image
+   recovers all earlier operations and the failed one entirely or not at all (C03). *)
+From BC Require Import Store.Engine Store.Log Store.Cons Store.Inv Store.Refine Store.Merge Store.Theorems
+  Store.Crash Store.CrashScript Store.CrashMerge.
 Open Scope N_scope.
 
 (* 1. An id is consumed before its file is created: new_active_datafile always uses an id above the
@@ -42,3 +48,25 @@ Proof.
   - intros H. injection H as Hs' Hl' Ht'. subst t l. cbn [app l_fid]. rewrite Ha. eauto.
 Qed.
 Print Assumptions C20_stale_writer_rolls_first.
+
+(* 4. The directory a failed operation leaves behind (a crash image of its trace, see the header), opened
+      again, reads every earlier operation, and the failed one entirely or not at all.  (For a failed
+      merge pass the buffered tail of the merge output may still be written when the writer is dropped:
+      extra bytes in an output file that holds copies only; that case is left to the sweep.) *)
+Theorem C20_failed_operation_then_restart : forall c ops1 o s0,
+  run_ready c init (ops1 ++ [o]) -> rep s0 (s_dir init) -> trace_wf (snd (run c init (ops1 ++ [o]))) ->
+  let s1 := fst (fst (run c init ops1)) in
+  exists f1, fs_run s0 (snd (run c init ops1)) = Some f1 /\
+    forall img, image_of f1 (snd (step c s1 o)) img ->
+      img_ok img (abs s1) \/ img_ok img (abs (fst (fst (step c s1 o)))).
+Proof. exact crash_during_op. Qed.
+Print Assumptions C20_failed_operation_then_restart.
+
+(* the call-boundary case spelled out: failing at the (n+1)-th call leaves the first n calls *)
+Theorem C20_fault_at_call_boundary : forall c ops1 o s0 n,
+  run_ready c init (ops1 ++ [o]) -> rep s0 (s_dir init) -> trace_wf (snd (run c init (ops1 ++ [o]))) ->
+  let s1 := fst (fst (run c init ops1)) in
+  exists f1 fn, fs_run s0 (snd (run c init ops1)) = Some f1 /\ fs_run f1 (firstn n (snd (step c s1 o))) = Some fn /\
+    (img_ok fn (abs s1) \/ img_ok fn (abs (fst (fst (step c s1 o))))).
+Proof. exact fault_then_restart. Qed.
+Print Assumptions C20_fault_at_call_boundary.
